@@ -14,9 +14,10 @@ class RecordingObjective:
 
     none_at: 1-based call number at which None is returned (or None)."""
 
-    def __init__(self, table, none_at=None):
+    def __init__(self, table, none_at=None, ret='float64'):
         self.table = np.asarray(table, dtype=float)
         self.none_at = none_at
+        self.ret = ret               # form of the returned batch: float64 / float32 / list / int (integer-valued tables)
         self.batches = []          # copies of what was received
         self.raw_types = []
         self.calls = 0
@@ -37,6 +38,12 @@ class RecordingObjective:
         out = np.zeros(len(K))
         if ok.any():
             out[ok] = self.table[tuple(K[ok].T)]
+        if self.ret == 'float32':
+            return out.astype(np.float32)
+        if self.ret == 'list':
+            return [float(x) for x in out]
+        if self.ret == 'int':
+            return out.astype(np.int64)
         return out
 
 
